@@ -28,7 +28,15 @@ type memRegister struct {
 	attempts []attempt
 	onAttempt func() // called (outside the lock) at every update attempt
 
-	feed chan []cluster.NodeInfo // data-node watch events pushed by the harness
+	kv map[string]string // SaveKV / GetKV
+
+	// one (feed, ack) pair per WatchDataNodes caller (the main and the learner placement driver)
+	watchers   []*watcher
+	watchReady chan struct{}
+}
+
+type watcher struct {
+	feed chan []cluster.NodeInfo
 	ack  chan struct{}
 }
 
@@ -36,7 +44,7 @@ var errCAS = errors.New("compare failed")
 var errUnreach = errors.New("register unreachable")
 
 func newMemRegister(ns string, replica int, info cluster.PartitionReplicaInfo) *memRegister {
-	r := &memRegister{ns: ns, feed: make(chan []cluster.NodeInfo), ack: make(chan struct{})}
+	r := &memRegister{ns: ns, kv: map[string]string{}, watchReady: make(chan struct{}, 8)}
 	r.meta = cluster.NamespaceMetaInfo{PartitionNum: 1, Replica: replica, MagicCode: 1, MinGID: 0, EngType: "mem"}
 	r.counter = 1
 	r.epoch = 1
@@ -112,8 +120,21 @@ func (r *memRegister) GetNamespaceSchemas(ns string) (map[string]cluster.SchemaI
 func (r *memRegister) GetNamespaceTableSchema(ns string, table string) (*cluster.SchemaInfo, error) {
 	return nil, cluster.ErrKeyNotFound
 }
-func (r *memRegister) SaveKV(key string, value string) error { return nil }
-func (r *memRegister) GetKV(key string) (string, error)      { return "", cluster.ErrKeyNotFound }
+func (r *memRegister) SaveKV(key string, value string) error {
+	r.mu.Lock()
+	defer r.mu.Unlock()
+	r.kv[key] = value
+	return nil
+}
+func (r *memRegister) GetKV(key string) (string, error) {
+	r.mu.Lock()
+	defer r.mu.Unlock()
+	v, ok := r.kv[key]
+	if !ok {
+		return "", cluster.ErrKeyNotFound
+	}
+	return v, nil
+}
 
 // ---- cluster.PDRegister ----
 func (r *memRegister) Register(nodeData *cluster.NodeInfo) error   { return nil }
@@ -131,17 +152,36 @@ func (r *memRegister) GetDataNodes() ([]cluster.NodeInfo, error)                
 // harness knows the coordinator's watch loop has taken the event.
 func (r *memRegister) WatchDataNodes(nodeC chan []cluster.NodeInfo, stopC chan struct{}) {
 	defer close(nodeC)
+	w := &watcher{feed: make(chan []cluster.NodeInfo), ack: make(chan struct{})}
+	r.mu.Lock()
+	r.watchers = append(r.watchers, w)
+	r.mu.Unlock()
+	r.watchReady <- struct{}{}
 	for {
 		select {
 		case <-stopC:
 			return
-		case l := <-r.feed:
+		case l := <-w.feed:
 			select {
 			case nodeC <- l:
-				r.ack <- struct{}{}
+				w.ack <- struct{}{}
 			case <-stopC:
 				return
 			}
+		}
+	}
+}
+
+// deliver hands a node list to every watcher twice: when the second delivery is taken, the first has been
+// processed completely by that coordinator's watch loop.
+func (r *memRegister) deliver(l []cluster.NodeInfo) {
+	r.mu.Lock()
+	ws := append([]*watcher{}, r.watchers...)
+	r.mu.Unlock()
+	for _, w := range ws {
+		for i := 0; i < 2; i++ {
+			w.feed <- l
+			<-w.ack
 		}
 	}
 }
